@@ -18,7 +18,10 @@ CONSTANTS TraceFile
 Configs == [A |-> [base |-> "A", default |-> 1, sets |-> <<1, 2>>],
             B |-> [base |-> "B", default |-> 2, sets |-> <<2, 3>>],
             C |-> [base |-> "A", default |-> 2, sets |-> <<1, 2, 3>>],
-            D |-> [base |-> "noadmin", default |-> 1, sets |-> <<1>>]]   \* loads, but its directory fails the check
+            D |-> [base |-> "noadmin", default |-> 1, sets |-> <<1>>],   \* loads, but its directory fails the check
+            E |-> [base |-> "A", default |-> 1, sets |-> <<1, 3>>],      \* A's directory, but the administrator's set is no longer configured
+            F |-> [base |-> "B", default |-> 3, sets |-> <<3>>],         \* the same for B's directory
+            G |-> [base |-> "stray", default |-> 1, sets |-> <<1, 2>>]]  \* a directory with a stray file
 Loadable == {"A", "B", "C"}
 
 VARIABLES cur, disk, l
